@@ -42,6 +42,8 @@ pub use runner::{SessionEngine, SessionHandle};
 pub mod verif_export {
     pub use crate::checkpoints::WorkspaceCheckpointHook;
     pub use crate::provider_openresponses::OpenResponsesConfig;
+    #[cfg(not(test))]
+    pub use crate::server::verif_acquire_authority_lock_with_recovery as acquire_authority_lock_with_recovery;
     pub use crate::server::VerifApp;
     pub use crate::session::verif_sse_pipe_run as sse_pipe_run;
 }
